@@ -13,3 +13,4 @@ pub mod gen;
 pub mod render;
 pub mod props;
 pub mod ub;
+pub mod fuzzrt;
